@@ -103,7 +103,7 @@ class Msg:
 
 class Result:
     __slots__ = ("messages", "end", "reason", "stage", "partial", "end_strict", "pos",
-                 "features", "rest")
+                 "features", "rest", "stop_block_len")
 
     def __init__(self):
         self.messages = []
@@ -115,6 +115,7 @@ class Result:
         self.pos = 0
         self.features = set()
         self.rest = b""
+        self.stop_block_len = None  # size of the header block of the message that stopped us
 
 
 class _Stop(Exception):
@@ -171,6 +172,23 @@ def _fields(data, pos, msg, stage, section):
         out.append((name, value))
 
 
+def _num_detail(s):
+    """Why a would-be number is not 1*DIGIT / 1*HEXDIG (keeps oracle keys specific)."""
+    if not s:
+        return "empty"
+    if any(c >= 0x80 for c in s):
+        return "obs_text"
+    if s[:1] in (b"+", b"-"):
+        return "sign"
+    if b"_" in s:
+        return "underscore"
+    if s[:2].lower() == b"0x":
+        return "0x"
+    if any(c in b" \t" for c in s):
+        return "whitespace"
+    return "other"
+
+
 def _values(fields, lname):
     return [v.strip(_OWS) for k, v in fields if k.lower() == lname]
 
@@ -184,7 +202,7 @@ def _content_length(vals, msg):
     for i, e in enumerate(elems):
         s = e.strip(_OWS)
         if not s or any(c not in _DIGITS for c in s):
-            raise _Stop("reject", "content_length_not_a_number", "semantic")
+            raise _Stop("reject", "content_length_not_a_number:" + _num_detail(s), "semantic")
         if e.rstrip(_OWS) != e:
             # "5 ,5": legal list syntax; Tornado's split leaves "5 " != "5"
             msg.strict.add("cl_ows_before_comma")
@@ -236,7 +254,7 @@ def _chunked(data, pos, msg, limit):
                     raise _Stop("reject", "bad_chunk_extension", "body")
                 msg.strict.add("chunk_ext")
             if not size_s or any(c not in _HEX for c in size_s):
-                raise _Stop("reject", "bad_chunk_size", "body")
+                raise _Stop("reject", "bad_chunk_size:" + _num_detail(size_s), "body")
             n = int(size_s, 16)
             pos = crlf + 2
             if n == 0:
@@ -294,9 +312,11 @@ def _gunzip_prefix(body, limit):
 
 
 def read_requests(data, *, max_header_size=None, max_body_size=None, body_limit_for=None,
-                  decompress=False):
+                  decompress=False, http10_te_closes=True):
     """See module docstring.  ``body_limit_for(msg)`` -> per-request limit or None
-    (then ``max_body_size`` applies)."""
+    (then ``max_body_size`` applies).  ``http10_te_closes=False`` drops the RFC 9112 6.1 rule
+    "Transfer-Encoding in an HTTP/1.0 message => close after it" (used to judge what follows
+    once that rule is known to be ignored)."""
     data = bytes(data)
     res = Result()
     pos = 0
@@ -342,7 +362,12 @@ def read_requests(data, *, max_header_size=None, max_body_size=None, body_limit_
             line, pos = r
             # ---- request line
             if b"\r" in line:
-                rl_err = "bare_cr_in_request_line"
+                if line.strip(b"\r").find(b"\r") >= 0:
+                    rl_err = "bare_cr_in_request_line"
+                elif line.startswith(b"\r"):
+                    rl_err = "bare_cr_before_request_line"
+                else:
+                    rl_err = "extra_cr_after_request_line"
             else:
                 parts = line.split(b" ")
                 rl_err = None
@@ -448,8 +473,9 @@ def read_requests(data, *, max_header_size=None, max_body_size=None, body_limit_
             if tes and minor == 0:
                 # RFC 9112 6.1: Transfer-Encoding in an HTTP/1.0 message: framing is
                 # to be considered faulty; close after processing
-                msg.close = "must"
                 msg.features.add("te_in_http10")
+                if http10_te_closes:
+                    msg.close = "must"
             # ---- body
             stage = "body"
             if chunked:
@@ -476,6 +502,7 @@ def read_requests(data, *, max_header_size=None, max_body_size=None, body_limit_
                 msg.body = _gunzip_prefix(msg.body, limit)
             res.end = s.kind
             res.reason = s.reason
+            res.stop_block_len = msg.block_len or None
             res.stage = s.stage
             res.pos = pos
             if s.stage == "head":
